@@ -362,7 +362,13 @@ class URL:
     def __repr__(self) -> str:
         url = str(self)
         if self.password:
-            url = str(self.replace(password="********"))
+            # masked in the text of the authority, without parsing the result again: for a
+            # client-supplied Host such as "[::1]:80@" the masked text is not a valid URL
+            userinfo, _, hostport = self.netloc.rpartition("@")
+            username = userinfo.partition(":")[0]
+            url = self.components._replace(
+                netloc=f"{username}:********@{hostport}"
+            ).geturl()
         return f"{self.__class__.__name__}({repr(url)})"
 
 
